@@ -366,7 +366,9 @@ def _copied(it, args, dty, func):
     o = args[0]
     if o.idx == 0:
         return o
-    return some(clone_val(_deref(o.f[0])), o.ty)
+    inner = o.f[0]
+    tgt = inner.load() if isinstance(inner, Ref) else inner      # one level only: &Arc<T> -> Arc<T> (shared)
+    return some(clone_val(tgt), o.ty)
 
 
 @model("std::mem::replace", "core::mem::replace")
@@ -427,7 +429,17 @@ def default_of(it, ty):
         return Seq("bytes", [])
     if t.endswith("BytesMut"):
         return Seq("bytesmut", [])
-    # crate type with Default impl
+    if t.endswith("HashMap") or t.endswith("HashSet") or t.endswith("BTreeMap"):
+        return MapV("HashMap", [])
+    if re.search(r"Atomic\w*$", t) or t.endswith("atomic::Atomic"):
+        return Agg("{atomic}", [False if t.endswith("Bool") else 0])
+    m = re.match(r"^(std::sync::Arc|std::boxed::Box|std::rc::Rc)<(.*)>$", ty.strip())
+    if m:
+        return BoxV(Cell(default_of(it, m.group(2)), "heap"), ())
+    m = re.match(r"^(?:parking_lot::|lock_api::|std::sync::)*(?:rwlock::|mutex::)?(?:RwLock|Mutex)<(?:parking_lot::\w+, )?(.*)>$", ty.strip())
+    if m:
+        return Agg("{lock}", [default_of(it, m.group(1))])
+    # crate struct with #[derive(Default)]: field-wise default from the MIR of its derived impl
     fn = it.prog.resolve_method("", t, "default", "Default")
     if fn:
         return it.run_body(it.prog.body(fn), [])
@@ -2005,4 +2017,164 @@ def _vu8_iter(it, args, dty, func):
 @model(VU8 + "clear")
 def _vu8_clear(it, args, dty, func):
     seq_of(args[0]).f.clear()
+    return UNIT
+
+
+# --- VecDeque -----------------------------------------------------------------------------------------
+VD = "std::collections::VecDeque::"
+
+
+@model(VD + "new", VD + "with_capacity")
+def _vd_new(it, args, dty, func):
+    return Seq("vecdeque", [], "?")
+
+
+@model(VD + "push_back")
+def _vd_push_back(it, args, dty, func):
+    seq_of(args[0]).f.append(args[1])
+    return UNIT
+
+
+@model(VD + "push_front")
+def _vd_push_front(it, args, dty, func):
+    seq_of(args[0]).f.insert(0, args[1])
+    return UNIT
+
+
+@model(VD + "pop_front")
+def _vd_pop_front(it, args, dty, func):
+    s = seq_of(args[0])
+    return some(s.f.pop(0)) if s.f else none()
+
+
+@model(VD + "pop_back")
+def _vd_pop_back(it, args, dty, func):
+    s = seq_of(args[0])
+    return some(s.f.pop()) if s.f else none()
+
+
+@model(VD + "front", VD + "front_mut", VD + "back", VD + "back_mut")
+def _vd_front(it, args, dty, func):
+    s = seq_of(args[0])
+    if not s.f:
+        return none()
+    i = 0 if "front" in func else len(s.f) - 1
+    return some(args[0].child(i))
+
+
+@model(VD + "insert")
+def _vd_insert(it, args, dty, func):
+    s = seq_of(args[0])
+    i = concretize(it, args[1], 64, "VecDeque insert index")
+    if i > len(s.f):
+        raise Panic("assert", "index out of bounds")
+    s.f.insert(i, args[2])
+    return UNIT
+
+
+@model(VD + "get", VD + "get_mut")
+def _vd_get(it, args, dty, func):
+    s = seq_of(args[0])
+    i = concretize(it, args[1], 64, "VecDeque index")
+    return some(args[0].child(i)) if i < len(s.f) else none()
+
+
+@model(VD + "drain", "std::vec::Vec::drain")
+def _vd_drain(it, args, dty, func):
+    s = seq_of(args[0])
+    a, b = range_bounds(it, args[1], len(s.f))
+    out = s.f[a:b]
+    del s.f[a:b]
+    return Agg("{owned_iter}", [Seq("vec", out, "?"), 0])
+
+
+# --- sequential models of atomics and locks (mirsym is single-threaded; interleavings: cfa-bmc) -------
+@model_re(r"^std::sync::atomic::Atomic(Usize|Bool|U8|U32|U64|Isize|I64)?::new$")
+def _atomic_new(it, args, dty, func):
+    return Agg("{atomic}", [args[0]])
+
+
+@model_re(r"^std::sync::atomic::Atomic(Usize|Bool|U8|U32|U64|Isize|I64)?::(fetch_add|fetch_sub|load|store|swap|fetch_or|fetch_and|compare_exchange)$")
+def _atomic_op(it, args, dty, func):
+    op = strip_generics(func).rsplit("::", 1)[1]
+    cell = args[0]
+    a = cell.load()
+    old = a.f[0]
+    w = 64
+    if op == "load":
+        return old
+    if op == "store":
+        a.f[0] = args[1]
+        return UNIT
+    if op == "swap":
+        a.f[0] = args[1]
+        return old
+    if op in ("fetch_add", "fetch_sub"):
+        n = args[1]
+        if isinstance(old, int) and isinstance(n, int):
+            a.f[0] = mask(old + n if op == "fetch_add" else old - n, w)
+        else:
+            a.f[0] = simp(bv(old, w) + bv(n, w) if op == "fetch_add" else bv(old, w) - bv(n, w))
+        return old
+    if op == "compare_exchange":
+        eq = val_eq(it, old, args[1])
+        if it.ctx.branch(eq):
+            a.f[0] = args[2]
+            return ok(old)
+        return err(old)
+    if op in ("fetch_or", "fetch_and"):
+        if isinstance(old, bool) or isinstance(args[1], bool):
+            a.f[0] = (old or args[1]) if op == "fetch_or" else (old and args[1])
+        else:
+            a.f[0] = (old | args[1]) if op == "fetch_or" else (old & args[1])
+        return old
+    raise Unsupported("atomic " + op)
+
+
+@model_re(r"^(parking_lot::)?(lock_api::)?(rwlock::|mutex::)?(RwLock|Mutex)::new$|^std::sync::(RwLock|Mutex)::new$")
+def _lock_new(it, args, dty, func):
+    return Agg("{lock}", [args[0]])
+
+
+@model_re(r"^(parking_lot::)?(lock_api::)?(rwlock::|mutex::)?(RwLock|Mutex)::(read|write|lock|upgradable_read)$")
+def _lock_acquire(it, args, dty, func):
+    return args[0].child(0)          # the guard is a reference to the protected value
+
+
+@trait_model(r".*", "Default", "default")
+def _default2(it, args, dty, func):
+    return default_of(it, dty)
+
+
+@model("std::collections::HashMap::entry")
+def _map_entry(it, args, dty, func):
+    return Agg("{entry}", [args[0], args[1]])
+
+
+@model_re(r"^std::collections::hash_map::Entry::(or_insert_with|or_insert|or_default)$")
+def _entry_or_insert(it, args, dty, func):
+    e = args[0]
+    mref, key = e.f
+    m = map_of(mref)
+    i = map_find_idx(it, m, key)
+    if i is None:
+        name = strip_generics(func)
+        if name.endswith("or_insert_with"):
+            v = it.call_closure(args[1], Agg("tuple", []), "")
+        elif name.endswith("or_insert"):
+            v = args[1]
+        else:
+            raise Unsupported("or_default")
+        m.items.append((key, v))
+        i = len(m.items) - 1
+    return _MapValRef(mref, i)
+
+
+@model("tokio::sync::Notify::new")
+def _notify_new(it, args, dty, func):
+    return Agg("{notify}", [])
+
+
+@model("tokio::sync::Notify::notify_waiters", "tokio::sync::Notify::notify_one")
+def _notify_waiters(it, args, dty, func):
     return UNIT
